@@ -34,7 +34,7 @@ def _emit_calls(m):
             for piece in re.findall(r'(?:\\.|[^\\])*?(?:\\n|$)', text):
                 if piece:
                     out.append('EMIT_LIT("%s");' % piece)
-        elif part == "i":
+        elif part in ("i", "nbr"):
             out.append("EMIT_RANK();")
         else:
             out.append("EMIT_TOK(TOK_OTHER);")
@@ -86,14 +86,54 @@ BODIES = [
         {"name": "no unmapped C++ may remain (outside the emitted literals)", "forbid": r"std::|<<|\bos\b|\[&|mpd\.|\bname\b|iname", "outside_strings": True}]),
 ]
 
+CSRC = "mfront/src/CMaterialPropertyInterfaceBase.cxx"
+
+
+def _cemit_calls(m):
+    return _emit_calls(m).replace("EMIT_LIT(", "CEMIT_LIT(").replace("EMIT_RANK(", "CEMIT_RANK(").replace("EMIT_TOK(", "CEMIT_TOK(")
+
+
+def _c_loop(kind):
+    return [
+        {"name": "range-for over the inputs: rendered as its own inductive check", "re": r"for \(const auto& i : mpd\.inputs\) \{", "sub": "CLOOP_%s_BEGIN {" % kind, "min": 1, "max": 1},
+        {"name": "end of the loop", "after_block": r"CLOOP_%s_BEGIN " % kind, "insert": " CLOOP_%s_END" % kind, "min": 1},
+        {"name": "variable description accessor", "re": r"\bi\.has(PhysicalBounds|Bounds)\(\)", "sub": lambda m: "i_hasPhysicalBounds()" if m.group(1) == "PhysicalBounds" else "i_hasBounds()", "min": 1, "max": 1},
+        {"name": "bounds object (content abstracted)", "re": r"const auto& b = i\.get(?:Physical)?Bounds\(\);", "sub": "", "min": 1, "max": 1},
+        {"name": "rank of the input (getVariableNumber: position + 1; abstracted as the rank token)", "re": r"const auto nbr =\s*CMaterialPropertyInterfaceBase::getVariableNumber\(mpd, i\.name\);", "sub": "", "min": 1, "max": 1},
+        {"name": "cast text (abstracted)", "re": r"const auto cast_(?:start|end) = useQuantities\(mpd\) \? [^;]*;", "sub": "", "min": 2, "max": 2},
+        {"name": "out << ... statements -> emission calls", "re": r'\bout << ((?:"(?:\\.|[^"\\])*"|[^;"])*);', "sub": _cemit_calls, "min": 3},
+        {"name": "bounds type", "re": r"\bb\.boundsType", "sub": "b_boundsType", "min": 2},
+        {"name": "enumerators", "re": r"VariableBoundsDescription::", "sub": "VariableBoundsDescription_", "min": 2},
+        {"name": "no unmapped C++ may remain (outside the emitted literals)", "forbid": r"std::|<<|\bout\b|\[&|\bi\.|mpd", "outside_strings": True},
+    ]
+
+
+CBODIES = [
+    dict(name="C_writePhysicalBounds", generic=False, file=CSRC, pattern=r"static void writePhysicalBounds\(std::ostream& out,", rules=_c_loop("P")),
+    dict(name="C_writeBounds", generic=False, file=CSRC, pattern=r"static void writeBounds\(std::ostream& out,", rules=_c_loop("S")),
+    dict(name="C_checkBoundsBody", generic=False, file=CSRC, pattern=r"void CMaterialPropertyInterfaceBase::writeMaterialPropertyCheckBoundsBody\(", rules=[
+        {"name": "preamble of the generated function (typedefs, interface variables, unused-argument casts: no return)", "re": r"\A.*?(?=if \(!areRuntimeChecksDisabled\(mpd\)\) \{)", "sub": "{ ", "min": 1, "max": 1},
+        {"name": "run-time checks switch", "re": r"areRuntimeChecksDisabled\(mpd\)", "sub": "runtime_checks_disabled", "min": 1, "max": 1},
+        {"name": "bounds predicates on the inputs", "re": r"\bhas(PhysicalBounds|Bounds)\(mpd\.inputs\)", "sub": lambda m: "inputs_have_physical_bounds_c" if m.group(1) == "PhysicalBounds" else "inputs_have_bounds_c", "min": 2, "max": 2},
+        {"name": "call of the physical-bounds emitter", "re": r"writePhysicalBounds\(os, mpd\);", "sub": "C_writePhysicalBounds();", "min": 1, "max": 1},
+        {"name": "call of the standard-bounds emitter", "re": r"writeBounds\(os, mpd\);", "sub": "C_writeBounds();", "min": 1, "max": 1},
+        {"name": "os << ... statements -> emission calls", "re": r'\bos << ((?:"(?:\\.|[^"\\])*"|[^;"])*);', "sub": _cemit_calls, "min": 3},
+        {"name": "no unmapped C++ may remain (outside the emitted literals)", "forbid": r"std::|<<|\bos\b|\[&|mpd", "outside_strings": True}]),
+]
+
 
 def run(ctx):
     ctx.assume("the emitters of the generic material-property interface (writePhysicalBounds, writeBounds, and the part of writeSrcFile that emits the body of the generated function, verified against the two others' contracts; run-time checks enabled, any number of inputs) in mfront/src/GenericMaterialPropertyInterfaceBase.cxx are under contract, as an emission protocol: every `os << ...` statement is rendered as EMIT_LIT (one call per emitted line fragment) / EMIT_RANK / EMIT_TOK calls in the same order and control flow; names, types, bound values and message texts are abstracted",
                "the ghost automaton reads the emitted text: restoration of errno before every emitted return, sign of status against sign of the rank, policy tests; it does not parse the generated C++ (brace structure, the conditions themselves)",
-               "assumed: writeAssignMaterialPropertyParameters and the declarations of the inputs emit no return and no errno statement (their text is abstracted); the user's function body may set errno and contains no return; NOT covered: the conditions guarding each emitted status (the text of the tests), the message buffer, the C interface's _checkBounds, and the behaviour of the compiled generated code (that would need mfront rebuilt from the working tree on every run)")
+               "assumed: writeAssignMaterialPropertyParameters and the declarations of the inputs emit no return and no errno statement (their text is abstracted); the user's function body may set errno and contains no return; C interface: the emitters of <law>_checkBounds (writePhysicalBounds, writeBounds, writeMaterialPropertyCheckBoundsBody in mfront/src/CMaterialPropertyInterfaceBase.cxx) under the same kind of contract (returns -rank, then +rank, then 0); NOT covered: the conditions guarding each emitted status (the text of the tests), the rank value (getVariableNumber), the message buffer, and the behaviour of the compiled generated code (that would need mfront rebuilt from the working tree on every run)")
     tpl = os.path.join(ctx.spec_dir, "emitter.c.in")
     jobs = [Job("emitter_writePhysicalBounds", tpl, bodies=BODIES, enforce="writePhysicalBounds", harness="h_writePhysicalBounds", unwind=80, min_obligations=4, drop_checks=["--conversion-check"]),
             Job("emitter_writeBounds", tpl, bodies=BODIES, enforce="writeBounds", harness="h_writeBounds", unwind=80, min_obligations=4, drop_checks=["--conversion-check"]),
             Job("emitter_writeSrcFile_body", tpl, bodies=BODIES, enforce="writeSrcFile_body", harness="h_writeSrcFile_body", replace=["writePhysicalBounds", "writeBounds"], unwind=80,
                 min_obligations=5, drop_checks=["--conversion-check"])]
+    jobs += [Job("C_checkBounds_writePhysicalBounds", tpl, bodies=BODIES + CBODIES, enforce="C_writePhysicalBounds", harness="h_C_writePhysicalBounds", unwind=80, min_obligations=2, drop_checks=["--conversion-check"]),
+             Job("C_checkBounds_writeBounds", tpl, bodies=BODIES + CBODIES, enforce="C_writeBounds", harness="h_C_writeBounds", unwind=80, min_obligations=2, drop_checks=["--conversion-check"]),
+             Job("C_checkBounds_body", tpl, bodies=BODIES + CBODIES, enforce="C_checkBoundsBody", harness="h_C_checkBoundsBody", replace=["C_writePhysicalBounds", "C_writeBounds"], unwind=80, min_obligations=3, drop_checks=["--conversion-check"])]
+    for j in jobs[:3]:
+        j.bodies = BODIES + CBODIES
     run_jobs(ctx, jobs)
